@@ -7,4 +7,4 @@ unset GOSUMDB GOTOOLCHAIN
 if [ ! -x bin/gvc ] || [ ! -x bin/goyacc ]; then
   (cd gvc && go build -o ../bin/gvc . && go build -o ../bin/goyacc golang.org/x/tools/cmd/goyacc) || exit 2
 fi
-exec bin/gvc check -property "$1" -tier "${2:-quick}"
+exec ${GVC_BIN:-bin/gvc} check -property "$1" -tier "${2:-quick}"
